@@ -9,7 +9,7 @@ import (
 
 // clauses of the property statement, each judged (and reported) separately so that a known
 // finding about one clause cannot hide a violation of another
-var clauses = []string{"cover", "index", "ids", "total", "pages", "path"}
+var clauses = []string{"cover", "text", "index", "ids", "total", "pages", "path"}
 
 type verdict struct {
 	sig, detail string
@@ -34,6 +34,7 @@ func judge(b *built, chunks []*rag.Chunk, layoutView bool) judged {
 	perChunk := make([][]string, n)
 	var observed []string
 	var prevPath []string
+	var stream []byte // the concatenated chunk texts without white space (for the layout view: with the section headings where they are introduced)
 	for i, c := range chunks {
 		toks := scanTokens(c.Text)
 		perChunk[i] = toks
@@ -53,15 +54,57 @@ func judge(b *built, chunks []*rag.Chunk, layoutView bool) judged {
 						observed = append(observed, t)
 					}
 				}
+				stream = stripSpace(stream, h)
 			}
 			prevPath = p
 		}
 		observed = append(observed, toks...)
+		stream = stripSpace(stream, c.Text)
 	}
 
 	// ---- cover: every token exactly once, in document order -------------------------------
 	if v, ok := b.cover(observed); !ok {
 		j.bad["cover"] = v
+	}
+
+	// ---- text: every source text whose words are all there (once) appears verbatim, white space aside ----
+	{
+		count := map[string]int{}
+		for _, t := range observed {
+			count[t]++
+		}
+		hay := string(stream)
+		for _, u := range b.units {
+			whole := true
+			for _, t := range u.toks {
+				if count[t] != 1 {
+					whole = false // lost / repeated words are the cover clause's business
+					break
+				}
+			}
+			if !whole {
+				continue
+			}
+			want := string(stripSpace(nil, u.text))
+			if !strings.Contains(hay, want) {
+				around := ""
+				if i := strings.Index(hay, u.toks[0]); i >= 0 {
+					end := i + len(want) + 24
+					if end > len(hay) {
+						end = len(hay)
+					}
+					around = hay[i:end]
+				}
+				if len(want) > 120 {
+					want = want[:120] + "…"
+				}
+				if len(around) > 160 {
+					around = around[:160] + "…"
+				}
+				j.bad["text"] = verdict{"garbled:" + kindClass[u.k], fmt.Sprintf("the %s text %q does not occur verbatim (white space aside) in the chunk texts; they have %q", kindName[u.k], want, around)}
+				break
+			}
+		}
 	}
 
 	// ---- index / ids / total ---------------------------------------------------------------
